@@ -532,6 +532,8 @@ func fpFold1(op string, x float64) (float64, bool) {
 		return math.Trunc(x), true
 	case "fp.rne":
 		return math.RoundToEven(x), true
+	case "fp.rna":
+		return math.Round(x), true
 	case "fp.sqrt":
 		return math.Sqrt(x), true
 	}
